@@ -102,9 +102,38 @@ func extractHandshake(p *pkgs, f *facts) {
 		f.miss = append(f.miss, "CoreProtocolVersion")
 		core = -1
 	}
-	f.lean = append(f.lean, fmt.Sprintf("def handshake : Handshake.Params := ⟨%s, %s, %d, %d, %d⟩",
-		leanBool(addrErrChecked), leanBool(certNilGuard), minFields, certMinLen, core))
-	f.set("handshake", map[string]interface{}{"addrErrChecked": addrErrChecked, "certNilGuard": certNilGuard,
+	// (5) `c.address = …` occurs once in Start, as a top-level statement followed only by `return`
+	addressLast := false
+	if start != nil {
+		total := 0
+		ast.Inspect(start.Body, func(n ast.Node) bool {
+			if as, ok := n.(*ast.AssignStmt); ok {
+				for _, l := range as.Lhs {
+					if exprString(l) == "c.address" {
+						total++
+					}
+				}
+			}
+			return true
+		})
+		list := start.Body.List
+		for i, st := range list {
+			as, ok := st.(*ast.AssignStmt)
+			if !ok || len(as.Lhs) != 1 || exprString(as.Lhs[0]) != "c.address" {
+				continue
+			}
+			onlyReturns := true
+			for _, rest := range list[i+1:] {
+				if _, ok := rest.(*ast.ReturnStmt); !ok {
+					onlyReturns = false
+				}
+			}
+			addressLast = total == 1 && onlyReturns
+		}
+	}
+	f.lean = append(f.lean, fmt.Sprintf("def handshake : Handshake.Params := ⟨%s, %s, %d, %d, %d, %s⟩",
+		leanBool(addrErrChecked), leanBool(certNilGuard), minFields, certMinLen, core, leanBool(addressLast)))
+	f.set("handshake", map[string]interface{}{"addrErrChecked": addrErrChecked, "certNilGuard": certNilGuard, "addressAssignedLast": addressLast,
 		"minFields": minFields, "certMinLen": certMinLen, "coreVersion": core})
 }
 
